@@ -173,6 +173,29 @@ func aimedAMs(caps amCaps) []*amSchema {
 			)},
 		))
 	}
+	// 9. every scalar kind and width, nullable, required and optional
+	if caps.Nullable {
+		var flds []*amField
+		add := func(name string, t *amType) {
+			flds = append(flds, fld(name+"Req", true, nullable(t)), fld(name+"Opt", false, nullable(t)))
+		}
+		for _, w := range caps.IntWidths {
+			add("i"+w, tyw("int", w))
+			add("ib"+w, bounded(tyw("int", w), 1, 100))
+		}
+		for _, w := range caps.FloatWidths {
+			add("f"+w, tyw("float", w))
+		}
+		add("s", ty("string"))
+		add("sl", strLen(1, 6))
+		if caps.NullableBool {
+			add("b", ty("bool"))
+		}
+		if caps.DateTime {
+			add("t", ty("datetime"))
+		}
+		out = append(out, mk(&amObject{"Nullables", st(flds...)}))
+	}
 	return out
 }
 
